@@ -20,10 +20,11 @@ def parse(first):
 def one(p):
     out = []
     wt = prefix + p
-    for v in ("A", "B"):
+    for v in ("A", "B", "C", "D"):
         demo = os.path.join(wt, "_seed", v + ".demo_test.go")
         if not os.path.exists(demo) or not os.path.exists(os.path.join(wt, "_seed", v + ".patch.diff")):
-            out.append((p, v, "missing deliverables")); continue
+            if v in ("A", "B"): out.append((p, v, "missing deliverables"))
+            continue
         d, args = parse(open(demo).readline())
         if d is None:
             out.append((p, v, "cannot parse PLACE/RUN line: " + open(demo).readline()[:120])); continue
